@@ -218,3 +218,40 @@ def agile_key(ctx, salt, cps, spin, block_key, key_bytes=32):
     h = H(salt, utf16le(ctx, cps))
     for i in range(spin): h = H(LE32(i), h)
     return H(h, block_key)[:key_bytes]
+
+
+# ---------------------------------------------------------------- non-cryptographic digests used as interning keys (md5 hex text, ahash)
+class HexText:
+    """the lower-hex text of a digest, one opaque character run inside a string"""
+    def __init__(self, ch): self.ch = ch
+    def __eq__(self, o): return eq_chunks(None, self.ch, o.ch) if isinstance(o, HexText) else False
+    def __ne__(self, o):
+        r = self.__eq__(o)
+        return (not r) if isinstance(r, bool) else z3.Not(r)
+    def __hash__(self): return 0
+    def opaque_bytes(self):
+        if not hasattr(self, 'term'): self.term = Term('HEX', (self.ch,), 32)
+        return list(self.term.bytes)
+class HashKey:
+    """a 64-bit hash value modelled as injective: equal only for equal input"""
+    def __init__(self, ch): self.ch = ch
+    def __eq__(self, o): return eq_chunks(None, self.ch, o.ch) if isinstance(o, HashKey) else False
+    def __ne__(self, o):
+        r = self.__eq__(o)
+        return (not r) if isinstance(r, bool) else z3.Not(r)
+    def __hash__(self): return 0
+class AHash:
+    def __init__(self): self.buf = []
+def install_digests(it):
+    from .models import str_bytes
+    ms = []
+    def m(pat, fn): ms.append((re.compile(pat), fn, False))
+    def digest(it_, data):
+        d = deref_all(data)
+        return mk('MD5', str_bytes(it_, d) if isinstance(d, SStr) else list(d), n=16)
+    m(r'<md5::digest::core_api::CoreWrapper<md5::Md5Core> as md5::Digest>::digest::<.*>', digest)
+    m(r"core::fmt::rt::Argument::<'_>::new_lower_hex::<md5::digest::generic_array::GenericArray<.*>>", lambda it_, g: [HexText(chunks(list(deref_all(g))))])
+    m(r'<.*ahash::AHasher as std::default::Default>::default', lambda it_: AHash())
+    m(r'<.*ahash::AHasher as std::hash::Hasher>::write', lambda it_, h, data: (deref_all(h).buf.extend(list(deref_all(data))), [])[1])
+    m(r'<.*ahash::AHasher as std::hash::Hasher>::finish', lambda it_, h: HashKey(chunks(deref_all(h).buf)))
+    it.models = ms + list(it.models)
